@@ -537,6 +537,12 @@ def check_api(ctx, tier):
                                           oid='%s:%s' % (q, norm(ev.stmt)[:60]))
                     else:
                         ctx.ok('R-SRCUNTOUCHED', '%s:%s' % (fmt, q), 'src/PseudoNetCDF/%s %s' % (rp, q), '%d write sinks, none on storage of the input file' % nsink_)
+                    uf = lints.unflushed_return(fn)
+                    if uf is not None:
+                        ctx.violation(Finding('R-FLUSH', rp, q, uf, 'the writer returns its open file object without flushing it after the last write: while the caller holds the handle the last buffered bytes '
+                                              '(e.g. the closing record marker) are missing on disk, and a reader that counts steps from the file length loses the last step'))
+                    else:
+                        ctx.ok('R-FLUSH', '%s:%s' % (fmt, q), 'src/PseudoNetCDF/%s %s' % (rp, q), 'flushed after the last write (or no handle returned)')
                     rv = lints.reinterpret_input(fn, [a.arg for a in fn.args.args[:1]])
                     for call, recv in rv:
                         ctx.violation(Finding('R-CONVERT', rp, q, api.stmt_of(call), '%s still has the dtype of the caller\'s data and is %s instead of converted to the 4-byte record type (astype(\'>f\')): '
@@ -604,6 +610,7 @@ def run(ctx):
                  ('R-EDGECELLS', 'edge -> cell-count table agrees between boundary writer and reader'),
                  ('R-VARORDER', 'cloud/rain variable order agrees between writer and reader'),
                  ('R-CENTURY', 'two-digit years get their century back per element (files may cross 1999/2000)'),
+                 ('R-FLUSH', 'a writer that returns its open file flushes it after the last write'),
                  ('R-SRCUNTOUCHED', 'writers never write storage of the file they are given (alias/view provenance)'),
                  ('R-INPLACEALIAS', 'writers never update in place an array that aliases one still to be written'),
                  ('R-CONVERT', 'writers convert input data with astype, never reinterpret it with a dtype view'),
@@ -664,6 +671,33 @@ def run(ctx):
             ctx.ok('R-CENTURY', rp_ + ':pivot', 'src/PseudoNetCDF/%s ConvertCAMxTime' % rp_, 'pivot/centuries decode 00001..69365 as 20xx and 70001..99365 as 19xx')
         elif consts_ok is None:
             ctx.undec('R-CENTURY', rp_ + ':pivot', 'src/PseudoNetCDF/%s ConvertCAMxTime' % rp_, 'pivot constants not in the where(date < P, A, B) form')
+    # ---- R-ENDIAN: the uamiv memmap reader takes the byte order from its `endian` argument for *every* record type
+    ctx.rule('R-ENDIAN', 'uamiv Memmap: every record type built from literal format codes is given the byte order of the endian argument (.newbyteorder(ep))')
+    um = ctx.src.mod(CAMX + 'uamiv/Memmap.py')
+    nend = 0
+    for qn in ('uamiv._make_header_fmt', 'uamiv.__readheader'):
+        f_ = um.func(qn)
+        for c in ast.walk(f_):
+            if not (isinstance(c, ast.Call) and dotted(c.func) in ('dtype', 'np.dtype')):
+                continue
+            lits = [n.value for n in ast.walk(c) if isinstance(n, ast.Constant) and isinstance(n.value, str)]
+            fmts = kw(c.args[0], 'formats') if c.args and isinstance(c.args[0], ast.Call) else (c.args[0] if c.args else None)
+            if fmts is None:
+                continue
+            codes = [n.value for n in ast.walk(fmts) if isinstance(n, ast.Constant) and isinstance(n.value, str)]
+            if not codes:
+                continue      # composed of other record types only
+            nend += 1
+            par = getattr(c, '_parent', None)
+            gp = getattr(par, '_parent', None)
+            swapped = isinstance(par, ast.Attribute) and par.attr == 'newbyteorder' and isinstance(gp, ast.Call) and gp.args and norm(gp.args[0]) in ('ep', 'self.__endianprefix')
+            fixed = [x for x in codes if x[:1] in '<>' or (x.startswith('(') and ')' in x and x[x.index(')') + 1:x.index(')') + 2] in '<>')]
+            if swapped and not fixed:
+                ctx.ok('R-ENDIAN', '%s@%d' % (qn, c.lineno), 'src/PseudoNetCDF/%suamiv/Memmap.py %s' % (CAMX, qn), '%d codes, .newbyteorder(ep)' % len(codes))
+            else:
+                ctx.violation(Finding('R-ENDIAN', um.relpath, qn, api.stmt_of(c), 'this record type %s: with endian=\'little\' its fields are read byte-swapped while the rest of the file is read correctly '
+                                      '(time flags come back as garbage)' % ('hard-codes the byte order %s' % sorted(set(fixed)) if fixed else 'is not given the byte order of the endian argument')))
+    ctx.floor('literal record types of the uamiv memmap reader', nend, 6)
     # ---- R-KEYPARSE: 'EDGE_SPECIES' keys of the boundary reader: everything after the first underscore is the species (names may contain underscores)
     from .. import consteval
     ctx.rule('R-KEYPARSE', "lateral_boundary reader: the variable key 'EDGE_SPECIES' is split at the first underscore only")
